@@ -43,12 +43,16 @@ type signState struct {
 	cells   map[string]sg
 	leq     map[string]bool // "a<=b"
 	written map[string]bool // cells rewritten in place on some path to here
+	rep     map[string]ssa.Value // for a cell rewritten in place: a value that denotes it
 }
 
 func (s *signState) clone() *signState {
-	n := &signState{cells: make(map[string]sg, len(s.cells)), leq: make(map[string]bool, len(s.leq)), written: make(map[string]bool, len(s.written))}
+	n := &signState{cells: make(map[string]sg, len(s.cells)), leq: make(map[string]bool, len(s.leq)), written: make(map[string]bool, len(s.written)), rep: make(map[string]ssa.Value, len(s.rep))}
 	for k, v := range s.cells {
 		n.cells[k] = v
+	}
+	for k, v := range s.rep {
+		n.rep[k] = v
 	}
 	for k := range s.leq {
 		n.leq[k] = true
@@ -464,7 +468,7 @@ func (a *signAn) analyse(fn *ssa.Function, report bool) {
 // inState: meet of the predecessors' out-states refined by the branch taken.
 func (a *signAn) inState(fn *ssa.Function, b *ssa.BasicBlock, outs map[*ssa.BasicBlock]*signState) *signState {
 	if b == fn.Blocks[0] {
-		return &signState{cells: map[string]sg{}, leq: map[string]bool{}, written: map[string]bool{}}
+		return &signState{cells: map[string]sg{}, leq: map[string]bool{}, written: map[string]bool{}, rep: map[string]ssa.Value{}}
 	}
 	var acc *signState
 	for _, p := range b.Preds {
@@ -483,8 +487,23 @@ func (a *signAn) inState(fn *ssa.Function, b *ssa.BasicBlock, outs map[*ssa.Basi
 		for k, v := range acc.cells {
 			if ov, ok := es.cells[k]; ok {
 				acc.cells[k] = sgJoin(v, ov)
+			} else if val, wr := acc.rep[k]; wr && acc.written[k] {
+				// rewritten in place on this side only: on the other side the cell still has
+				// the sign its definition gives it
+				acc.cells[k] = sgJoin(v, a.signOf(fn, val, es, outs, 0))
 			} else {
 				delete(acc.cells, k)
+			}
+		}
+		for k, ov := range es.cells {
+			if _, ok := acc.cells[k]; ok {
+				continue
+			}
+			if val, wr := es.rep[k]; wr && es.written[k] {
+				tmp := acc.clone()
+				delete(tmp.cells, k)
+				acc.cells[k] = sgJoin(ov, a.signOf(fn, val, tmp, outs, 0))
+				acc.rep[k] = val
 			}
 		}
 		for k := range acc.leq {
@@ -595,6 +614,7 @@ func (a *signAn) transfer(fn *ssa.Function, b *ssa.BasicBlock, in ssa.Instructio
 			st.cells[k] = ns
 			st.kill(k)
 			st.written[k] = true
+			st.rep[k] = args[0]
 			// in-place update of a slice element
 			if ld, ok := args[0].(*ssa.UnOp); ok {
 				if ia, ok := ld.X.(*ssa.IndexAddr); ok {
